@@ -19,6 +19,7 @@ Decided (structural necessary conditions; networkx's search itself is trusted):
  R7 same request  : compare_reqs compares the same attribute of both requests (route lists and LOOSE/STRICT flags included).
  Ra alias mutation: a local that still names a list of another object (not copied) is never mutated in place.
  Rn arg roles     : a variable named like a parameter of the callee is handed to that parameter (no exchanged roles).
+ R8 request keys  : requests_from_json reads every plainly copied field (source, destination, ...) from the key of the same name.
 """
 import ast
 
@@ -378,6 +379,14 @@ def rn_arg_roles(ctx):
     ctx.check('Rn.arg-roles', 'argument / parameter name scan', True, 'C11|arg-roles-scan', '', f'{n} argument(s) named like another parameter judged')
 
 
+def r8_endpoints_loaded(ctx):
+    """R8: the request that is routed is the request that was asked: requests_from_json fills source, destination (and every other
+    plainly copied field) from the JSON key of the same name"""
+    from .common import request_keys_rule
+    request_keys_rule(ctx, 'R8.request-keys', 'the route would be computed to / from another transceiver than the one requested')
+    ctx.need('R8.request-keys', 4)
+
+
 from ..memo import rule_for as _memo_rule
 
 RULES_MEMO = ('Rm.memo', _memo_rule('C11', 'a route computed for another request or topology would be returned'))
@@ -388,4 +397,4 @@ from ..presence import rule_for as _presence_rule
 RULES_PRESENCE = ('Rp.presence', _presence_rule('C11', 'a legal zero would be read as missing'))
 
 RULES = [('R1.metric', r1_metric), ('R2.outcomes', r2_outcomes), ('R3.reasons', r3_reasons), ('R4.route-lists', r4_route_lists),
-         ('R5.helpers', r5_helpers), RULES_MEMO, RULES_PRESENCE, ('R6.group-constraints', r6_group_constraints), ('R7.same-request', r7_same_request), ('Ra.alias-mutation', ra_alias), ('Rn.arg-roles', rn_arg_roles)]
+         ('R5.helpers', r5_helpers), RULES_MEMO, RULES_PRESENCE, ('R6.group-constraints', r6_group_constraints), ('R7.same-request', r7_same_request), ('Ra.alias-mutation', ra_alias), ('Rn.arg-roles', rn_arg_roles), ('R8.request-keys', r8_endpoints_loaded)]
